@@ -28,6 +28,15 @@ Sessions (stateful; the state is `Sess Rat` of the model, printed after every op
   call <n> <tree>                       tree leaves `U <id>` refer to the objects
 answers: `obj <id> L A=<rows> b=<b>` | `obj <id> Q Q=<rows> b=<b> c=<c>` | `obj <id> P <polys>` |
          `x=<list>` | `v=.. J=..`
+
+Storage histories (stateful; `Hist Rat` of the model: storage + the arrays returned so far):
+  hs <list>                             the caller's buffer (cell 0) with this content, nothing kept
+  hw <list>                             the caller rewrites its buffer
+  hc <n> <stree>                        evaluate on the buffer, keep the returned array
+stree := W <positions> | P <m> <poly>*m | res <N> <frozen> <values> <stree> | lc <K> <row>*K <stree>
+       | add|sub|mul|div <stree> <stree> | neg <stree> | cat <k> <stree>*k
+answer to hc: `v=<values> buf=<0|1> shares=<calls whose kept array lives in the same cell | -> kept=<what every
+         kept array outside the buffer shows now, `;`-separated>`
 -/
 
 def parseMono (n : Nat) (s : String) : Option (Mono Rat) :=
@@ -295,4 +304,96 @@ def sessionStep (s : Sess Rat) (line : String) : Sess Rat × String :=
       | _, _, some id => (s', showObj s' id)
       | _, _, _ => (s', "ok")
 
-def main : IO Unit := driverLoop sessionStep Sess.empty
+/-! ### Storage histories -/
+
+partial def parseS (n : Nat) (ts : List String) : Option (SExpr Rat × List String) :=
+  match ts with
+  | "W" :: sel :: r => do
+    let sel ← parseNatList? sel
+    pure (.view sel, r)
+  | "P" :: m :: r => do
+    let m ← m.toNat?
+    let (ps, r) ← takeN m r
+    let ps ← ps.mapM (parsePoly n)
+    pure (.fresh (fun x => ps.map (fun p => polyEval p (vec x))), r)
+  | "res" :: nn :: fz :: vs :: r => do
+    let nn ← nn.toNat?
+    let fz ← parseNatList? fz
+    let vs ← parseRatList? vs
+    let (a, r) ← parseS nn r
+    pure (.restrict nn fz vs a, r)
+  | "lc" :: k :: r => do
+    let k ← k.toNat?
+    let (rows, r) ← takeN k r
+    let rows ← rows.mapM parseRatList?
+    let (a, r) ← parseS k r
+    pure (.lincomp rows a, r)
+  | "neg" :: r => do
+    let (a, r) ← parseS n r
+    pure (.neg a, r)
+  | "cat" :: k :: r => do
+    let k ← k.toNat?
+    if k = 0 then none else
+    let (a, r) ← parseS n r
+    -- `Concatenate` builds a new array also for a single function
+    let mut acc := if k = 1 then SExpr.concat a (.fresh (fun _ => [])) else a
+    let mut rest := r
+    for _ in [1:k] do
+      let (b, r') ← parseS n rest
+      acc := .concat acc b
+      rest := r'
+    pure (acc, rest)
+  | op :: r =>
+    if op = "add" ∨ op = "sub" ∨ op = "mul" ∨ op = "div" then do
+      let (a, r) ← parseS n r
+      let (b, r) ← parseS n r
+      let bop := match op with
+        | "add" => BinOp.add | "sub" => .sub | "mul" => .mul | _ => .div
+      pure (.bin bop a b, r)
+    else none
+  | [] => none
+
+def showCalls (l : List Nat) : String :=
+  if l.isEmpty then "-" else ",".intercalate (l.map toString)
+
+def histStep (s : Hist Rat) (ts : List String) : Hist Rat × String :=
+  match ts with
+  | ["hs", p] =>
+    match parseRatList? p with
+    | some p => ({ store := [p], kept := [] }, "ok")
+    | none => (s, "bad-line")
+  | ["hw", p] =>
+    match parseRatList? p with
+    | some p => (s.step (.write p), "ok")
+    | none => (s, "bad-line")
+  | "hc" :: n :: r =>
+    match n.toNat? with
+    | none => (s, "bad-line")
+    | some n =>
+      match parseS n r with
+      | some (e, []) =>
+        let s' := s.step (.call e)
+        match s'.kept.getLast? with
+        | none => (s', "bad-line")
+        | some (a, v) =>
+          let earlier := (List.range s.kept.length).filter
+            (fun k => match s.kept[k]? with | some (b, _) => b.cell == a.cell && a.cell != 0 | none => false)
+          let now := (s'.kept.filter (fun q => q.1.cell != 0)).map (fun q => showRatList (s'.store.read q.1))
+          (s', s!"v={showRatList v} buf={if a.cell == 0 then 1 else 0} shares={showCalls earlier} kept={if now.isEmpty then "-" else ";".intercalate now}")
+      | _ => (s, "bad-line")
+  | _ => (s, "bad-line")
+
+def allStep (st : Sess Rat × Hist Rat) (line : String) : (Sess Rat × Hist Rat) × String :=
+  match tokens line with
+  | t :: r =>
+    if t = "hs" ∨ t = "hw" ∨ t = "hc" then
+      let (h', o) := histStep st.2 (t :: r)
+      ((st.1, h'), o)
+    else
+      let (s', o) := sessionStep st.1 line
+      ((s', st.2), o)
+  | [] =>
+    let (s', o) := sessionStep st.1 line
+    ((s', st.2), o)
+
+def main : IO Unit := driverLoop allStep (Sess.empty, { store := [[]], kept := [] })
